@@ -16,7 +16,37 @@ import os
 import sys
 
 INT, BOOL, OPTINT, OPTBOOL, STR, LISTPAIR = "int", "bool", "optint", "optbool", "str", "listpair"
-COQTY = {INT: "Z", BOOL: "bool", OPTINT: "option Z", OPTBOOL: "option bool", LISTPAIR: "list (Z * Z)"}
+COQTY = {INT: "Z", BOOL: "bool", OPTINT: "option Z", OPTBOOL: "option bool", LISTPAIR: "list (Z * Z)", STR: "string"}
+
+
+class Rec:
+    """an object seen through a fixed set of typed fields; Gallina: the tuple of the fields in sorted name order
+    (a single field: the field itself).  cls = the Python class whose translated methods may be called on it."""
+
+    def __init__(self, cls, fields):
+        self.cls, self.fields = cls, dict(fields)
+
+    def names(self):
+        return sorted(self.fields)
+
+
+class ListOf:
+    """a Python list of Rec objects"""
+
+    def __init__(self, rec):
+        self.rec = rec
+
+
+def coqty(ty):
+    if isinstance(ty, Rec):
+        return "(" + " * ".join(coqty(ty.fields[f]) for f in ty.names()) + ")"
+    if isinstance(ty, ListOf):
+        return "list " + coqty(ty.rec)
+    return COQTY[ty]
+
+
+def tuple_of(parts):
+    return "tt" if not parts else (parts[0] if len(parts) == 1 else "(" + ", ".join(parts) + ")")
 
 
 class Untranslatable(Exception):
@@ -63,14 +93,32 @@ TARGETS = [
     Fn("ArbitrationId", "from_compound_integer", "classmethod", [("i", INT)], {}, ["id", "extended"], None, "gen_from_compound_integer"),
     Fn("ArbitrationId", "from_pgn", "classmethod", [("pgn", INT)], {}, ["id", "extended"], None, "gen_from_pgn"),
     Fn("Frame", "fit_dlc", "method", [], {"size": INT}, ["size"], None, "gen_fit_dlc"),
+    # Gen_layout.v is self-contained: it carries its own copy of get_startbit (called on the signals of a frame)
+    Fn("Signal", "get_startbit", "method", [("bit_numbering", OPTINT), ("start_little", OPTBOOL)],
+       SIG_SELF, [], INT, "gen_sig_get_startbit", file="Gen_layout.v"),
+    Fn("Frame", "calc_dlc", "method", [], None, ["size"], None, "gen_calc_dlc", file="Gen_layout.v"),
+    Fn("CanMatrix", "recalc_dlc", "method", [("strategy", STR)], None, ["frames"], None, "gen_recalc_dlc", file="Gen_layout.v"),
 ]
+SIG_REC = Rec("Signal", {"is_little_endian": BOOL, "size": INT, "start_bit": INT})
+PDU_REC = Rec("Pdu", {"size": INT})
+FRAME_SELF = {"is_pdu_container": BOOL, "pdus": ListOf(PDU_REC), "signals": ListOf(SIG_REC), "size": INT}
+FRAME_REC = Rec("Frame", FRAME_SELF)
+for _fn in TARGETS:
+    if _fn.coq_name == "gen_calc_dlc":
+        _fn.selff = FRAME_SELF
+    elif _fn.coq_name == "gen_recalc_dlc":
+        # `self.pdus` is what the source reads inside the frame loop; it is translated as written
+        _fn.selff = {"frames": ListOf(FRAME_REC), "pdus": ListOf(PDU_REC)}
 FILES = {"Signal": "Gen_startbit.v", "ArbitrationId": "Gen_arbid.v", "Frame": "Gen_frame.v"}
 
 
 class Ctx:
-    def __init__(self, fn, classes, consts, getters):
+    def __init__(self, fn, classes, consts, getters, status=None, funcs=None):
         self.fn, self.classes, self.consts, self.getters = fn, classes, consts, getters
         self.counter = {}
+        self.status = status or {}        # coq_name -> 'ok' | 'untranslatable...' of the targets translated so far
+        self.funcs = funcs or {}          # (class, name, kind) -> FunctionDef
+        self.loop_depth = 0
 
     def fresh(self, base):
         base = base.replace(".", "_")
@@ -94,6 +142,8 @@ def expr(e, env, cx):
             return [], "None", "none"
         if isinstance(e.value, int):
             return [], zlit(e.value), INT
+        if isinstance(e.value, str) and all(32 <= ord(c) < 127 and c != '"' for c in e.value):
+            return [], '"%s"%%string' % e.value, STR
         bad(e, "constant")
     if isinstance(e, ast.Name):
         if e.id in env:
@@ -111,6 +161,22 @@ def expr(e, env, cx):
             args = " ".join(env["self." + f][0] for f in sorted(g.selff))
             return [(v, "%s %s" % (g.coq_name, args))], v, g.ret
         bad(e, "unknown attribute")
+    if isinstance(e, ast.Attribute) and isinstance(e.value, ast.Name):
+        key = e.value.id + "." + e.attr                       # field of a loop element
+        if key in env:
+            return [], env[key][0], env[key][1]
+        bad(e, "unknown attribute")
+    if isinstance(e, ast.Call) and isinstance(e.func, ast.Attribute) and isinstance(e.func.value, ast.Name):
+        v, term, callee = method_call(e, env, cx)
+        if callee.ret is None or callee.out_fields:
+            bad(e, "call of a mutating method inside an expression")
+        return [(v, term)], v, callee.ret
+    if isinstance(e, ast.Call) and isinstance(e.func, ast.Name) and e.func.id == "max" and len(e.args) == 2 and not e.keywords:
+        b1, l, tl = expr(e.args[0], env, cx)
+        b2, r, tr = expr(e.args[1], env, cx)
+        if tl != INT or tr != INT:
+            bad(e, "max() of non-ints")
+        return b1 + b2, "(Z.max %s %s)" % (l, r), INT
     if isinstance(e, ast.BinOp):
         b1, l, tl = expr(e.left, env, cx)
         b2, r, tr = expr(e.right, env, cx)
@@ -144,7 +210,7 @@ def expr(e, env, cx):
         return bc, "(if %s then %s else %s)" % (c, x, y), t1
     if isinstance(e, ast.Call) and isinstance(e.func, ast.Name) and e.func.id == "len" and len(e.args) == 1:
         b, t, ty = expr(e.args[0], env, cx)
-        if ty != LISTPAIR:
+        if ty != LISTPAIR and not isinstance(ty, ListOf):
             bad(e, "len() of a non-list")
         return b, "(Z.of_nat (length %s))" % t, INT
     if isinstance(e, ast.Call) and isinstance(e.func, ast.Name) and e.func.id == "int" and len(e.args) == 1:
@@ -214,6 +280,8 @@ def cond(e, env, cx):
                 bad(e, "equality on this type")
             if tx == INT and ty == INT:
                 t = "(%s =? %s)" % (x, y)
+            elif tx == STR and ty == STR:
+                t = "(String.eqb %s %s)" % (x, y)
             elif tx == BOOL and ty == BOOL:
                 t = "(Bool.eqb %s %s)" % (x, y)
             else:
@@ -224,6 +292,168 @@ def cond(e, env, cx):
     if ty != BOOL:
         bad(e, "truthiness of a non-bool")
     return b, t
+
+
+def method_call(call, env, cx):
+    """<element>.<method>() where the method is a translated target of the same generated file, called without
+    arguments (every omitted parameter must default to None in the source).  Returns (result pattern, term, callee)."""
+    obj = call.func.value.id
+    oty = env.get(obj, (None, None))[1]
+    if not isinstance(oty, Rec):
+        bad(call, "method call on something that is not a loop element")
+    here = cx.fn.file or FILES.get(cx.fn.cls)
+    callee = None
+    for g in TARGETS:
+        if g.cls == oty.cls and g.name == call.func.attr and g.kind == "method" and (g.file or FILES.get(g.cls)) == here:
+            callee = g
+    if callee is None or callee is cx.fn:
+        bad(call, "call of a method that is not a translated target of this file")
+    if cx.status.get(callee.coq_name) != "ok":
+        bad(call, "callee %s is untranslatable" % callee.coq_name)
+    if call.args or call.keywords:
+        bad(call, "method call with arguments")
+    fdef = cx.funcs.get((callee.cls, callee.name, callee.kind))
+    defaults = fdef.args.defaults if fdef is not None else []
+    if fdef is None or len(defaults) != len(callee.params) or \
+            not all(isinstance(d, ast.Constant) and d.value is None for d in defaults) or \
+            not all(ty in (OPTINT, OPTBOOL) for _, ty in callee.params):
+        bad(call, "omitted parameters do not all default to None")
+    args = []
+    for f in sorted(callee.selff):
+        if callee.selff[f] == STR:
+            continue
+        key = obj + "." + f
+        if key not in env or not same_type(env[key][1], callee.selff[f]):
+            bad(call, "element lacks field %s of the callee" % f)
+        args.append(env[key][0])
+    args += ["None"] * len(callee.params)
+    outs = []
+    if callee.ret is not None:
+        outs.append(cx.fresh("r_" + callee.name))
+    for f in callee.out_fields:
+        outs.append(cx.fresh(obj + "_" + f))
+    return tuple_of(outs), "%s %s" % (callee.coq_name, " ".join(args)), callee
+
+
+def same_type(a, b):
+    if isinstance(a, Rec) and isinstance(b, Rec):
+        return a.cls == b.cls and a.names() == b.names() and all(same_type(a.fields[f], b.fields[f]) for f in a.fields)
+    if isinstance(a, ListOf) and isinstance(b, ListOf):
+        return same_type(a.rec, b.rec)
+    return a == b
+
+
+def iter_key(node):
+    """the env key of a list expression: self.<f> or <element>.<f>"""
+    if isinstance(node, ast.Attribute) and isinstance(node.value, ast.Name):
+        return node.value.id + "." + node.attr
+    return None
+
+
+def assigned_keys(body, env, cx):
+    """env keys (locals, self.<f>, <element>.<f>) a statement list may assign, incl. through mutating calls and
+    through inner loops that rebuild their list"""
+    out = set()
+    for s in body:
+        if isinstance(s, (ast.Assign, ast.AugAssign)):
+            tgts = s.targets if isinstance(s, ast.Assign) else [s.target]
+            for tg in tgts:
+                if isinstance(tg, ast.Name):
+                    out.add(tg.id)
+                elif isinstance(tg, ast.Attribute) and isinstance(tg.value, ast.Name):
+                    out.add(tg.value.id + "." + tg.attr)
+                else:
+                    bad(s, "assignment target")
+        elif isinstance(s, ast.Expr) and isinstance(s.value, ast.Call) and isinstance(s.value.func, ast.Attribute) \
+                and isinstance(s.value.func.value, ast.Name) and ast.unparse(s.value.func) not in ("warnings.warn", "logger.info", "logger.warning"):
+            obj = s.value.func.value.id
+            for g in TARGETS:
+                if g.name == s.value.func.attr and g.kind == "method":
+                    out |= {obj + "." + f for f in g.out_fields}
+        elif isinstance(s, ast.If):
+            out |= assigned_keys(s.body, env, cx) | assigned_keys(s.orelse, env, cx)
+        elif isinstance(s, ast.For):
+            inner = assigned_keys(s.body, env, cx) | assigned_keys(s.orelse, env, cx)
+            if isinstance(s.target, ast.Name):
+                mine = {k for k in inner if k.startswith(s.target.id + ".")}
+                inner -= mine
+                inner.discard(s.target.id)
+                if mine:
+                    k = iter_key(s.iter)
+                    if k is None:
+                        bad(s, "loop that updates the elements of an unnamed list")
+                    inner.add(k)
+            out |= inner
+        elif isinstance(s, (ast.While, ast.With, ast.Try, ast.FunctionDef, ast.Delete, ast.Global, ast.Nonlocal)):
+            bad(s, "statement")
+    return out
+
+
+def record_loop(s, env, cx, nxt):
+    """for x in <list of records>: body     ->  an option-carrying fold_left whose accumulator is the tuple of the outer
+    variables the body assigns (sorted by name), plus the rebuilt list when the body updates fields of x.
+    Names first assigned inside the body are temporaries of one round (a read before the assignment, or after the loop,
+    is an unknown name and aborts the translation)."""
+    if s.orelse:
+        bad(s, "for ... else")
+    b0, lst, lty = expr(s.iter, env, cx)
+    if b0 or not isinstance(lty, ListOf):
+        bad(s, "for loop over this iterable")
+    x = s.target.id
+    if x in env or x in ("self", "cls") or any(k.startswith(x + ".") for k in env):
+        bad(s, "loop variable shadows another name")
+    rec = lty.rec
+    assigned = assigned_keys(s.body, env, cx)
+    if x in assigned:
+        bad(s, "assignment to the loop variable")
+    elem_upd = sorted(k for k in assigned if k.startswith(x + "."))
+    for k in elem_upd:
+        if k.split(".", 1)[1] not in rec.fields:
+            bad(s, "assignment to an untracked field of the loop element")
+    outer = sorted(k for k in assigned if not k.startswith(x + ".") and k in env)
+    lkey = iter_key(s.iter)
+    if elem_upd and (lkey is None or lkey not in env or lkey in outer):
+        bad(s, "loop that updates elements of a list it cannot rebuild")
+    acc_in = [cx.fresh(k + "_a") for k in outer]
+    out_in = cx.fresh("rebuilt") if elem_upd else None
+    env_l = dict(env)
+    for k, v in zip(outer, acc_in):
+        env_l[k] = (v, env[k][1])
+    xv = cx.fresh(x + "_e")
+    fields = rec.names()
+    fvars = [cx.fresh(x + "_" + f) for f in fields]
+    env_l[x] = (xv, rec)
+    for f, v in zip(fields, fvars):
+        env_l[x + "." + f] = (v, rec.fields[f])
+
+    def k_end(e2):
+        parts = [e2[k][0] for k in outer]
+        if elem_upd:
+            parts.append("(%s ++ [%s])" % (out_in, tuple_of([e2[x + "." + f][0] for f in fields])))
+        return "Some %s" % tuple_of(parts)
+
+    cx.loop_depth += 1
+    body = stmts(s.body, env_l, cx, k_end, None)
+    cx.loop_depth -= 1
+    accv = cx.fresh("acc")
+    pat_in = tuple_of(acc_in + ([out_in] if elem_upd else []))
+    init = tuple_of([env[k][0] for k in outer] + (["[]"] if elem_upd else []))
+    destr = "let %s := %s in " % (fvars[0], xv) if len(fields) == 1 else "let '(%s) := %s in " % (", ".join(fvars), xv)
+    acc_tys = [coqty(env[k][1]) for k in outer] + ([coqty(env[lkey][1])] if elem_upd else [])
+    acc_ty = "unit" if not acc_tys else " * ".join("(%s)" % a for a in acc_tys)
+    fold = ("fold_left (fun (%s : option (%s)) (%s : %s) => match %s with None => None | Some %s => %s%s end) %s (Some %s)"
+            % (accv, acc_ty, xv, coqty(rec), accv, pat_in, destr, body, lst, init))
+    env2 = dict(env)
+    outs = []
+    for k in outer:
+        v = cx.fresh(k)
+        env2[k] = (v, env[k][1])
+        outs.append(v)
+    if elem_upd:
+        v = cx.fresh(lkey)
+        env2[lkey] = (v, env[lkey][1])
+        outs.append(v)
+    return "match %s with None => None | Some %s => %s end" % (fold, tuple_of(outs), nxt(env2))
 
 
 def with_binds(binds, body):
@@ -255,6 +485,17 @@ def stmts(body, env, cx, k_end, k_break=None):
             return nxt(env)                                   # docstring
         if isinstance(s.value, ast.Call) and ast.unparse(s.value.func) in ("warnings.warn", "logger.info", "logger.warning"):
             return nxt(env)                                   # no effect on the modelled state
+        if isinstance(s.value, ast.Call) and isinstance(s.value.func, ast.Attribute) and isinstance(s.value.func.value, ast.Name) \
+                and s.value.func.value.id not in ("self", "cls"):
+            pat, term, callee = method_call(s.value, env, cx)   # <element>.<method>(): the element's fields are updated
+            obj = s.value.func.value.id
+            names = pat.strip("()").split(", ") if pat != "tt" else []
+            if callee.ret is not None:
+                names = names[1:]
+            env2 = dict(env)
+            for f, v in zip(callee.out_fields, names):
+                env2[obj + "." + f] = (v, callee.selff[f])
+            return "match %s with None => None | Some %s => %s end" % (term, pat, nxt(env2))
         bad(s, "expression statement")
     if isinstance(s, ast.Pass):
         return nxt(env)
@@ -272,9 +513,15 @@ def stmts(body, env, cx, k_end, k_break=None):
             key = "self." + tgt.attr
             if key not in env:
                 bad(s, "assignment to an untracked self field")
+        elif isinstance(tgt, ast.Attribute) and isinstance(tgt.value, ast.Name) and isinstance(env.get(tgt.value.id, (None, None))[1], Rec):
+            key = tgt.value.id + "." + tgt.attr
+            if key not in env:
+                bad(s, "assignment to an untracked field of a loop element")
         else:
             bad(s, "assignment target")
         b, t, ty = expr(val, env, cx)
+        if isinstance(ty, (Rec, ListOf)):
+            bad(s, "assignment of an object or list")
         if key in env and env[key][1] != ty and not (env[key][1] == BOOL and ty == BOOL):
             bad(s, "assignment changes the type")
         v = cx.fresh(key)
@@ -330,6 +577,8 @@ def stmts(body, env, cx, k_end, k_break=None):
     if isinstance(s, ast.Raise):
         return "None"
     if isinstance(s, ast.Return):
+        if cx.loop_depth:
+            bad(s, "return inside a loop over records")
         if s.value is None:
             return result_term(cx, env, None)
         if isinstance(s.value, ast.Call) and isinstance(s.value.func, ast.Name) and s.value.func.id == "cls":
@@ -346,6 +595,8 @@ def stmts(body, env, cx, k_end, k_break=None):
         if k_break is None:
             bad(s, "break outside loop")
         return k_break(env)
+    if isinstance(s, ast.For) and isinstance(s.target, ast.Name) and isinstance(s.iter, ast.Attribute):
+        return record_loop(s, env, cx, nxt)
     if isinstance(s, ast.For):
         if s.orelse or not isinstance(s.target, ast.Name) or not isinstance(s.iter, (ast.List, ast.Tuple)) \
                 or not all(isinstance(x, ast.Constant) and isinstance(x.value, int) for x in s.iter.elts):
@@ -374,8 +625,8 @@ def ctor_call(call, env, cx):
     return with_binds(b1 + b2, "gen_post_init %s %s" % (x, i))   # binder order: sorted self fields (extended, id)
 
 
-def translate(fn, fdef, classes, consts, getters):
-    cx = Ctx(fn, classes, consts, getters)
+def translate(fn, fdef, classes, consts, getters, status=None, funcs=None):
+    cx = Ctx(fn, classes, consts, getters, status, funcs)
     env = {}
     binders = []
     for f in sorted(fn.selff):
@@ -383,13 +634,13 @@ def translate(fn, fdef, classes, consts, getters):
             continue
         v = "self_" + f
         env["self." + f] = (v, fn.selff[f])
-        binders.append("(%s : %s)" % (v, COQTY[fn.selff[f]]))
+        binders.append("(%s : %s)" % (v, coqty(fn.selff[f])))
     args = [a.arg for a in fdef.args.args][1:]
     if args != [p for p, _ in fn.params]:
         raise Untranslatable("parameter list of %s.%s is %s, expected %s" % (fn.cls, fn.name, args, [p for p, _ in fn.params]))
     for p, ty in fn.params:
         env[p] = (p, ty)
-        binders.append("(%s : %s)" % (p, COQTY[ty]))
+        binders.append("(%s : %s)" % (p, coqty(ty)))
     # generated local names never shadow a binder
     for f in fn.selff:
         cx.counter["self_" + f] = 1
@@ -451,22 +702,24 @@ def regenerate(src_dir, gen_dir):
                     # a decorator replaces the function by something else (a memo, a wrapper): the body alone is not
                     # what callers run any more
                     raise Untranslatable("decorator @%s is outside the translated subset" % dsrc)
-            txt = translate(fn, fdef, None, consts.get(fn.cls, {}), getters)
+            txt = translate(fn, fdef, None, consts.get(fn.cls, {}), getters, status, funcs)
             status[fn.coq_name] = "ok"
         except Untranslatable as e:
             # keep the file compiling: an explicit marker definition the Tie file cannot be proved against
             binders = []
             for f in sorted(fn.selff):
                 if fn.selff[f] != STR:
-                    binders.append("(self_%s : %s)" % (f, COQTY[fn.selff[f]]))
+                    binders.append("(self_%s : %s)" % (f, coqty(fn.selff[f])))
             for p, ty in fn.params:
-                binders.append("(%s : %s)" % (p, COQTY[ty]))
+                binders.append("(%s : %s)" % (p, coqty(ty)))
             txt = "(* UNTRANSLATABLE %s.%s: %s *)\nDefinition %s %s : option unit := None." % (fn.cls, fn.name, str(e).replace("*)", "* )"), fn.coq_name, " ".join(binders))
             status[fn.coq_name] = "untranslatable: " + str(e)[:200]
         per_file.setdefault(fn.file or FILES[fn.cls], []).append(txt)
     os.makedirs(gen_dir, exist_ok=True)
     for fname, defs in per_file.items():
+        strings = any(ty == STR for fn in TARGETS if (fn.file or FILES[fn.cls]) == fname for _, ty in fn.params)
         text = ("(* GENERATED by harness/py2coq.py from src/canmatrix/canmatrix.py - do not edit. *)\n"
+                + ("From Coq Require Import String.\n" if strings else "") +
                 "From CM Require Import lib.Prelude.\n\n" + "\n\n".join(defs) + "\n")
         p = os.path.join(gen_dir, fname)
         if not os.path.exists(p) or open(p).read() != text:
